@@ -563,6 +563,8 @@ func (e *e2) judge() {
 		e.judgeOpenClose(hist)
 	case "insert-race":
 		e.judgeInsertRace(hist)
+	case "expiry-race":
+		e.judgeExpiryRace(hist)
 	}
 }
 
@@ -951,5 +953,56 @@ func (e *e2) judgeInsertRace(hist []*HistEntry) {
 			}
 		}
 		e.probe("insertrace.one-winner")
+	}
+}
+
+// C14 (concurrent): a client that, around the deadline, successfully gave the document a later (or
+// no) expiry has a live document with that expiry in force. The expiry sweep may have won the race
+// (then the client's touch fails, or its Set re-creates the document) but it must not delete the
+// document AFTER the client's write was acknowledged: at the end, with simulated time still before
+// the new deadline, the document must be readable.
+func (e *e2) judgeExpiryRace(hist []*HistEntry) {
+	var lastWrite *HistEntry
+	for _, h := range hist {
+		if h.Task < 0 || isReadKind(h.Op.Kind) || isControlKind(h.Op.Kind) || h.Res.Err != "" {
+			continue
+		}
+		if lastWrite == nil || h.Ret > lastWrite.Ret {
+			lastWrite = h
+		}
+	}
+	if lastWrite == nil {
+		return
+	}
+	// only judge when that write was not overlapped by another client's write
+	for _, h := range hist {
+		if h != lastWrite && h.Task >= 0 && !isReadKind(h.Op.Kind) && !isControlKind(h.Op.Kind) && h.Ret > lastWrite.Call && h.Call < lastWrite.Ret {
+			return
+		}
+	}
+	// the write must have left a LIVE document: a touch or Set only succeeds on / always yields one;
+	// for other entry points the writer's own read right afterwards has to have seen the body
+	liveAfter := lastWrite.Op.Kind == "Touch" || lastWrite.Op.Kind == "GetAndTouchRaw" || lastWrite.Op.Kind == "Set"
+	for _, h := range hist {
+		if h.Task == lastWrite.Task && h.Idx == lastWrite.Idx+1 && h.Op.Kind == "GetRaw" && h.Res.Err == "" {
+			liveAfter = true
+		}
+	}
+	if !liveAfter {
+		return
+	}
+	newExp := absExp(&lastWrite.Op)
+	now := nowUnix()
+	if newExp != 0 && newExp <= now+1 {
+		return
+	}
+	for _, h := range hist {
+		if h.Task == -1 && h.Op.Kind == "GetRaw" && h.Op.Key == lastWrite.Op.Key {
+			if h.Res.Err != "" {
+				e.violate([]string{"C14"}, "expiry.race-early", "%s succeeded, leaving %q live with expiry %d (0 = never); simulated time is %d, yet the document finally reads %s: the expiry sweep deleted it on the strength of its OLD deadline", lastWrite, lastWrite.Op.Key, newExp, now, h.Res.Err)
+				return
+			}
+			e.probe("expiryrace.checked")
+		}
 	}
 }
